@@ -185,7 +185,7 @@ PLAN = {
         thorough=[ATTACH_Q, ATTACH_T, DEEP_X_T],
     ),
     "C20": dict(
-        rule="(1) lock programs (Once gates, mutex acquire/release, dcbor tag-lock blips) extracted from the hooks of the current build for 11 call kinds (format, format_flat, tree_format, diagnostic_annotated, hex, register_tags, known-value / function / parameter lookups, encode, ur); TLC explores every interleaving of 3 threads x 2 calls (thorough: 4 x 2) over the distinct programs, all threads racing on first use: deadlock freedom, once-only initialisation, no lock held at return, termination under fairness; real stress runs of 2..16 racing threads in fresh processes with a 20 s watchdog, every result compared with the single-thread text, recorded lock events validated by TLC against LocksTrace; (2) the registries as a sequential state machine (Registry.tla: KnownValuesStore as two maps, functions / parameters stores, a format context as a copy of the stores with summarizers copied again at registration): every insert / make-context sequence of length <= 4 over 2 codes x 2 names, each followed by the full projection through the query API and format() / tree_format() of probe envelopes",
+        rule="(1) lock programs (Once gates, mutex acquire/release, dcbor tag-lock blips) extracted from the hooks of the current build for 13 call kinds (format, format_flat, tree_format, diagnostic_annotated, hex, register_tags, known-value / function / parameter lookups, encode, ur, formatting while holding a registry guard, an application registering a tag of its own); TLC explores every interleaving of 3 threads x 2 calls (thorough: 4 x 2) over the distinct programs, all threads racing on first use: deadlock freedom, once-only initialisation, no lock held at return, termination under fairness; real stress runs of 2..16 racing threads in fresh processes with a 20 s watchdog, every result compared with the single-thread text, recorded lock events validated by TLC against LocksTrace; (2) the registries as a sequential state machine (Registry.tla: KnownValuesStore as two maps, functions / parameters stores, a format context as a copy of the stores with summarizers copied again at registration): every insert / make-context sequence of length <= 4 over 2 codes x 2 names, each followed by the full projection through the query API and format() / tree_format() of probe envelopes",
         quick=[LOCKS_Q, REGISTRY_Q],
         thorough=[LOCKS_T, REGISTRY_Q],
         assumptions=["A-tags: code run by dcbor while it holds its tag-registry lock never calls back into a bc-envelope function that takes a registry lock", "the harness builds the crate with its multithreaded feature; the default (Rc) build is covered by the repository suite only"],
